@@ -77,6 +77,10 @@ THEOREMS = {
         ("HH.C11.backend_independent", "∀ c, any two back ends: all later finalize/checkpoint/finish results equal"),
         ("HH.C11.restored_laws", "empty append is identity, streaming invariance, own checkpoints restore transparently"),
         ("HH.C11.decoded_count_lt", "pending count < 32 for every count field"),
+        ("HH.C11.decode_split", "decode of lanes++buf++count reads the lanes from the first 128 bytes and the first min(count,31) buffer bytes, nothing else"),
+        ("HH.C11.stale_bytes_ignored", "arrays with equal lanes, equal clamped count and equal first-count buffer bytes decode to the same logical state"),
+        ("HH.C11.restore_ignores_stale", "...and, restored on any two back ends, agree on every later digest/checkpoint/finish after any history"),
+        ("HH.C11.recheckpoint_normal_form", "∀ c ∈ u8^164, every back end: checkpoint(restore c) = encode(decode c), 164 bytes"),
         ("HH.C11.restore_never_panics", "∀ c ∈ u8^164, checks on/off, every usize width >= 16 bits (incl. 32-bit): restore, later appends and finalize fire no panic point"),
         ("HH.C11.legacy_count32_breaks", "kernel-checked witness of the fixed defect (count=32)"),
     ]),
